@@ -22,6 +22,9 @@ def plan(tier, seed):
     per = 2 if q else 8
     for b in range(nb):
         specs.append({"name": "neutral-%d" % b, "kind": "neutral", "b": b, "n": per, "timeout": 2400})
+    # the recorded witness of the known finding (1.5 % missed after a long deep bottleneck and a 360-fold expansion), every run
+    specs.append({"name": "witness-stiff-history", "kind": "neutral", "b": 999, "n": 1, "once": True, "timeout": 2400,
+                  "fixed_case": {"n": 30, "epochs": [[0.05200204134490856, 0.14251093325115388], [18.9234614217929, 0.19445235780707212]]}})
     specs.append({"name": "dtorder", "kind": "dtorder", "n": 6 if q else 40, "timeout": 2400})
     for b in range(2 if q else 12):
         specs.append({"name": "equil-%d" % b, "kind": "equil", "b": b, "n": 25 if q else 80, "timeout": 2400})
@@ -117,11 +120,21 @@ def run_neutral(spec, rec, dadi):
         else:
             epochs = draw_history(rng)
             model, args = composed_model(dadi, asfunc), epochs
+        if spec.get("fixed_case"):
+            fc = spec["fixed_case"]
+            which, n, asfunc = "three_epoch", int(fc["n"]), False
+            epochs = [tuple(e) for e in fc["epochs"]]
+            model, args = Demographics1D.three_epoch, (epochs[0][0], epochs[1][0], epochs[0][1], epochs[1][1])
         nsteps = sum(T / (1e-3 * 4 * nu) for nu, T in epochs)
         desc = {"model": which, "n": n, "args": args if which != "composed" else epochs, "asfunc": asfunc}
         if not rec.case("neu%d-%d" % (spec["b"], ci), desc, nontrivial=nsteps >= 10):
             continue
         tags = {"model": which, "asfunc": asfunc if which == "composed" else None}
+        # a long, deep bottleneck (T/nu >= 2: several coalescent units at a size where the step is nu-limited) followed by a
+        # >= 100-fold expansion: the first-order error of the time stepping, amplified in the entries that the expansion leaves
+        # small, exceeds 1.5 % at a tenth of the default step (known finding); these cases get an extra, finer rung
+        stiff = len(epochs) <= 4 and any(T / nu >= 2 and max([m for m, _ in epochs[i + 1:]] or [0]) / nu >= 100 for i, (nu, T) in enumerate(epochs))
+        tags["bottleneck_then_100x_expansion"] = bool(stiff)
         site = "Demographics1D." + which if which != "composed" else "phi_1D+one_pop+from_phi"
         theory = coal.coal_sfs(n, epochs)[1:n]
         G = max(n, 20) + 40
@@ -140,6 +153,16 @@ def run_neutral(spec, rec, dadi):
                     if tf == 1e-4:
                         rec.close("neutral-fine-1.5pct", e, 0.015, site=site, tags=dict(tags, log=log), observed=e)
                         rec.check("neutral-positive", bool(np.all(v > 0)), site=site, tags=dict(tags, log=log))
+            if stiff:
+                Integration.timescale_factor = 1e-5
+                res = memo_extrap(dadi, model, args, (n,), [G, G + 10, G + 20], rec, site, tags)
+                for log, fs in res.items():
+                    if fs is None or (1e-4, log) not in errs:
+                        continue
+                    v = fs[1:n]
+                    e5 = float(np.max(np.abs(v / theory - 1))) if np.all(np.isfinite(v)) else float("inf")
+                    rec.check("stiff-history-finer-rung", e5 <= 0.015 and e5 <= errs[(1e-4, log)] / 3 + 3e-3, site=site, tags=dict(tags, log=log),
+                              observed={"err_at_1e-4": errs[(1e-4, log)], "err_at_1e-5": e5})
             for log in (False, True):
                 if (1e-3, log) in errs and (1e-4, log) in errs:
                     rec.check("refinement-monotone", errs[(1e-4, log)] <= 1.05 * errs[(1e-3, log)] + 3e-3, site=site,
